@@ -51,8 +51,6 @@ def gen_case(rng, tier):
     for _ in range(n):
         r = rng.random()
         k = "m" if r < 0.6 else "p" if r < 0.75 else "n" if r < 0.9 else "f"
-        if k == "f" and tmo != "-" and rng.random() < 0.7:
-            k = "m"                       # keep most timeout cases outside the known class
         w = rng.random()
         wd = "0" if w < 0.7 else "x" if w < 0.74 else str(rng.randint(1, 3))
         kinds.append(k + wd)
@@ -146,6 +144,16 @@ def gen_case(rng, tier):
             steps.append(_answer(rng, i))
     if tmo != "-" and rng.random() < 0.3:
         steps.append("Z")
+    # the application subscribes to the very rules of the connection's own method-return channel (known class
+    # return_rule_hijack); only in small cases, where the reader is not kept waiting with msg_senders locked
+    if rng.random() < 0.07 and n <= 6 and style in ("random", "early"):
+        which = rng.choice(["Y", "Y", "W", "YW"])
+        for h in which:
+            steps.insert(rng.randint(0, len(steps)), h)
+        if rng.random() < 0.3:
+            steps.insert(rng.randint(steps.index(which[0]) + 1, len(steps)), "D")
+        if rng.random() < 0.3:
+            steps.insert(rng.randint(steps.index(which[0]) + 1, len(steps)), "y")
     return "K %s %s %s" % (tmo, ",".join(kinds), ",".join(steps) if steps else "-")
 
 
